@@ -47,6 +47,9 @@ pub struct DName {
     /// holder = the sheet of the first address (what the reader does for global names)
     pub holder_is_target: bool,
     pub parts: Vec<(u16, Area)>,
+    /// held by the workbook (`Spreadsheet::get_defined_names`) instead of a sheet
+    #[serde(default)]
+    pub workbook_level: bool,
 }
 
 #[derive(Debug, Clone, Serialize, Deserialize)]
@@ -72,6 +75,10 @@ pub struct Case {
     pub names: Vec<DName>,
     pub series: Vec<Series>,
     pub ops: Vec<OpRaw>,
+    /// lazy stratum: the workbook is saved, reopened with `read_reader(.., false)` and only
+    /// these sheets (monotone picks, possibly none) are materialised before the history
+    #[serde(default)]
+    pub lazy: Option<Vec<u16>>,
 }
 
 // ---------------------------------------------------------------------------------------
@@ -138,8 +145,8 @@ fn name_area(all: bool) -> BoxedStrategy<Area> {
 }
 
 fn dname() -> BoxedStrategy<DName> {
-    (any::<u16>(), prop::bool::weighted(0.8), prop::collection::vec((any::<u16>(), name_area(true)), 1..=2))
-        .prop_map(|(holder, holder_is_target, parts)| DName { holder, holder_is_target, parts })
+    (any::<u16>(), prop::bool::weighted(0.7), prop::collection::vec((any::<u16>(), name_area(true)), 1..=2), prop::bool::weighted(0.2))
+        .prop_map(|(holder, holder_is_target, parts, workbook_level)| DName { holder, holder_is_target, parts, workbook_level })
         .boxed()
 }
 
@@ -159,6 +166,7 @@ fn case_strategy(clean: bool, n_cells: (usize, usize), n_names: (usize, usize), 
         prop::collection::vec(op_raw(), 1..=6),
     )
         .prop_map(move |(sheets, cells, mut names, series, mut ops)| {
+            let lazy = None;
             if focus {
                 for o in ops.iter_mut() {
                     if o.sheet % 10 < 7 {
@@ -173,7 +181,7 @@ fn case_strategy(clean: bool, n_cells: (usize, usize), n_names: (usize, usize), 
                     }
                 }
             }
-            Case { clean, sheets, cells, names, series, ops }
+            Case { clean, sheets, cells, names, series, ops, lazy }
         })
         .boxed()
 }
@@ -187,6 +195,14 @@ fn names_cases(_t: Tier) -> BoxedStrategy<Case> {
 fn series_cases(_t: Tier) -> BoxedStrategy<Case> {
     case_strategy(true, (0, 1), (0, 0), (1, 2))
 }
+fn lazy_cases(_t: Tier) -> BoxedStrategy<Case> {
+    (case_strategy(true, (1, 3), (0, 2), (0, 0)), prop::collection::vec(any::<u16>(), 0..=2))
+        .prop_map(|(mut c, l)| {
+            c.lazy = Some(l);
+            c
+        })
+        .boxed()
+}
 fn dirty_cases(_t: Tier) -> BoxedStrategy<Case> {
     case_strategy(false, (0, 3), (0, 2), (0, 1))
 }
@@ -199,7 +215,7 @@ fn dirty_cases(_t: Tier) -> BoxedStrategy<Case> {
 fn target_of(r: &RefNode, host: usize, sheets: &[String]) -> Option<usize> {
     match &r.qual {
         None => Some(host),
-        Some(q) if q.is_external() => None,
+        Some(q) if q.is_external() || q.is_3d() => None,
         Some(q) => sheets.iter().position(|s| *s == q.sheet),
     }
 }
@@ -208,10 +224,14 @@ fn bind(e: &Expr, sheets: &[String]) -> Expr {
     let fix = |q: &Qual| -> Qual {
         let mut q = q.clone();
         q.sheet = sheets[pick_idx(q.pick, sheets.len())].clone();
+        if q.sheet2.is_some() {
+            // a 3-D reference spans sheets of this workbook (here: up to the last one)
+            q.sheet2 = Some(sheets[sheets.len() - 1].clone());
+        }
         q
     };
     e.map(&mut |x| match x {
-        Expr::Ref(r) => Expr::Ref(RefNode { qual: r.qual.as_ref().map(fix), area: r.area }),
+        Expr::Ref(r) => Expr::Ref(RefNode { qual: r.qual.as_ref().map(fix), area: r.area, lower: r.lower }),
         Expr::Name { qual, name } => Expr::Name { qual: qual.as_ref().map(fix), name },
         Expr::Err { qual, text } => Expr::Err { qual: qual.as_ref().map(fix), text },
         o => o,
@@ -224,11 +244,13 @@ pub struct Resolved {
     pub sheets: Vec<String>,
     /// (host, at, expr, blanks)
     pub cells: Vec<(usize, (u32, u32), Expr, Vec<u8>)>,
-    /// (holder, parts)
+    /// (holder sheet or WORKBOOK, parts)
     pub names: Vec<(usize, Vec<(usize, Area)>)>,
     pub series: Vec<(usize, Vec<(usize, Area)>)>,
     pub edits: Vec<(usize, Edit)>,
     pub excluded: Vec<String>,
+    /// Some = lazy stratum: sheets to materialise before the history
+    pub lazy: Option<Vec<usize>>,
 }
 
 impl Resolved {
@@ -347,6 +369,9 @@ fn survives(mut pos: (u32, u32), edits: &[Edit]) -> bool {
     true
 }
 
+/// holder index of a workbook-level defined name
+pub const WORKBOOK: usize = usize::MAX;
+
 pub fn resolve(c: &Case) -> Resolved {
     let mut excluded = Vec::new();
     let sheets = c.sheets.clone();
@@ -362,10 +387,6 @@ pub fn resolve(c: &Case) -> Resolved {
         let mut e = bind(&f.expr, &sheets);
         if c.clean {
             e = e.map(&mut |x| match x {
-                Expr::Array(rows) => {
-                    excluded.push("array/altered".into());
-                    Expr::Paren(Box::new(rows[0][0].clone()))
-                }
                 Expr::At(inner) => {
                     excluded.push("at/dropped".into());
                     *inner
@@ -378,39 +399,14 @@ pub fn resolve(c: &Case) -> Resolved {
     let part = |p: &(u16, Area)| (pick_idx(p.0, n), p.1.clone());
     let mut names: Vec<(usize, Vec<(usize, Area)>)> = Vec::new();
     for d in &c.names {
-        let mut parts: Vec<(usize, Area)> = d.parts.iter().map(part).collect();
-        let mut holder = if d.holder_is_target { parts[0].0 } else { pick_idx(d.holder, n) };
-        if c.clean {
-            // open findings: names held by another sheet than the one they refer to, second
-            // addresses on another sheet, whole rows/columns
-            if holder != parts[0].0 {
-                excluded.push("defined-name-foreign-holder/not-adjusted".into());
-                holder = parts[0].0;
-            }
-            if punct_multi(&sheets, &parts) {
-                excluded.push("defined-name-multi-on-punct-sheet/not-adjusted".into());
-                parts.truncate(1);
-            }
-            let before = parts.len();
-            let first = parts[0].0;
-            parts.retain(|p| p.0 == first);
-            if parts.len() != before {
-                excluded.push("defined-name-foreign-holder/not-adjusted".into());
-            }
-            for p in parts.iter_mut() {
-                match p.1.clone() {
-                    Area::Rows { r1, a1, r2, a2 } => {
-                        excluded.push("defined-name-whole-rows-cols/not-adjusted".into());
-                        p.1 = Area::Range(CellRef { col: 1, row: r1, abs_col: true, abs_row: a1 }, CellRef { col: 3, row: r2, abs_col: true, abs_row: a2 });
-                    }
-                    Area::Cols { c1, a1, c2, a2 } => {
-                        excluded.push("defined-name-whole-rows-cols/not-adjusted".into());
-                        p.1 = Area::Range(CellRef { col: c1, row: 1, abs_col: a1, abs_row: true }, CellRef { col: c2, row: 4, abs_col: a2, abs_row: true });
-                    }
-                    _ => {}
-                }
-            }
-        }
+        let parts: Vec<(usize, Area)> = d.parts.iter().map(part).collect();
+        let holder = if d.workbook_level {
+            WORKBOOK
+        } else if d.holder_is_target {
+            parts[0].0
+        } else {
+            pick_idx(d.holder, n)
+        };
         names.push((holder, parts));
     }
     let mut series: Vec<(usize, Vec<(usize, Area)>)> = Vec::new();
@@ -454,90 +450,13 @@ pub fn resolve(c: &Case) -> Resolved {
         cell.1 = pos;
         taken.push((host, pos));
     }
-    let mut r = Resolved { sheets, cells, names, series, edits, excluded };
-    if c.clean {
-        steer_refs(&mut r);
-        // open findings (R11): Address/Range based objects mishandle a deleted corner
-        let mut excluded = Vec::new();
-        let edits = r.edits.clone();
-        let on = |t: usize| -> Vec<Edit> { edits.iter().filter(|(s, _)| *s == t).map(|(_, e)| *e).collect() };
-        let all: Vec<Edit> = edits.iter().map(|(_, e)| *e).collect();
-        for (key, list) in [("defined-name/deleted-corner", &mut r.names), ("chart-series/deleted-corner", &mut r.series)] {
-            for (_, parts) in list.iter_mut() {
-                let before = parts.len();
-                parts.retain(|(t, a)| {
-                    let outs = edit_area_history(a, &on(*t));
-                    outs.len() == 1 && outs[0].is_some()
-                });
-                for _ in parts.len()..before {
-                    excluded.push(key.to_string());
-                }
-            }
-            list.retain(|(_, parts)| !parts.is_empty());
-        }
-        // open finding: Address::set_address keeps the doubled apostrophe of a quoted sheet name
-        for (_, parts) in r.series.iter_mut() {
-            let before = parts.len();
-            let sh = r.sheets.clone();
-            parts.retain(|(t, _)| !sh[*t].contains('\''));
-            for _ in parts.len()..before {
-                excluded.push("chart-series@apos-sheet/not-adjusted".to_string());
-            }
-        }
-        r.series.retain(|(_, parts)| !parts.is_empty());
-        // open finding (R5, owned by C07/C10): the edit of another sheet is applied to the
-        // defined names of every sheet
-        for (_, parts) in r.names.iter_mut() {
-            let before = parts.len();
-            parts.retain(|(t, a)| edit_area_history(a, &on(*t)) == edit_area_history(a, &all));
-            for _ in parts.len()..before {
-                excluded.push("defined-name/other-sheet-edit-applied".to_string());
-            }
-        }
-        r.names.retain(|(_, parts)| !parts.is_empty());
-        r.excluded.extend(excluded);
-    }
-    r
-}
-
-/// Clean strata: whole rows/columns that the history would move are replaced by ranges
-/// (open finding: whole rows/columns are never shifted).
-fn steer_refs(r: &mut Resolved) {
-    let sheets = r.sheets.clone();
-    let edits = r.edits.clone();
-    let mut excluded = Vec::new();
-    for (host, _at, e, _b) in r.cells.iter_mut() {
-        let host = *host;
-        *e = e.map(&mut |x| match x {
-            Expr::Ref(rn) => {
-                let whole = matches!(rn.area, Area::Rows { .. } | Area::Cols { .. });
-                if whole {
-                    if let Some(t) = target_of(&rn, host, &sheets) {
-                        let ed: Vec<Edit> = edits.iter().filter(|(s, _)| *s == t).map(|(_, e)| *e).collect();
-                        let outs = edit_area_history(&rn.area, &ed);
-                        if outs != vec![Some(rn.area.clone())] {
-                            let (key, area) = match &rn.area {
-                                Area::Rows { r1, a1, r2, a2 } => (
-                                    "rows/not-shifted",
-                                    Area::Range(CellRef { col: 1, row: *r1, abs_col: true, abs_row: *a1 }, CellRef { col: 3, row: *r2, abs_col: true, abs_row: *a2 }),
-                                ),
-                                Area::Cols { c1, a1, c2, a2 } => (
-                                    "cols/not-shifted",
-                                    Area::Range(CellRef { col: *c1, row: 1, abs_col: *a1, abs_row: true }, CellRef { col: *c2, row: 4, abs_col: *a2, abs_row: true }),
-                                ),
-                                _ => unreachable!(),
-                            };
-                            excluded.push(key.to_string());
-                            return Expr::Ref(RefNode { qual: rn.qual, area });
-                        }
-                    }
-                }
-                Expr::Ref(rn)
-            }
-            o => o,
-        });
-    }
-    r.excluded.extend(excluded);
+    let lazy = c.lazy.as_ref().map(|v| {
+        let mut l: Vec<usize> = v.iter().map(|p| pick_idx(*p, n)).collect();
+        l.sort();
+        l.dedup();
+        l
+    });
+    Resolved { sheets, cells, names, series, edits, excluded, lazy }
 }
 
 // ---------------------------------------------------------------------------------------
@@ -548,6 +467,10 @@ pub struct Observed {
     /// defined names / series as read back before the history (baseline)
     pub names0: Vec<Option<String>>,
     pub series0: Vec<Option<Vec<String>>>,
+    /// lazy stratum: formulas as an eager reload of the saved file shows them
+    pub cells0: Vec<Option<String>>,
+    /// lazy stratum: saving / reloading failed (not this property's subject)
+    pub setup_failed: Option<String>,
     pub cells: Vec<Option<String>>,
     pub names: Vec<Option<String>>,
     pub series: Vec<Option<Vec<String>>>,
@@ -555,6 +478,38 @@ pub struct Observed {
 
 fn address_text(sheets: &[String], parts: &[(usize, Area)]) -> Vec<String> {
     parts.iter().map(|(s, a)| format!("{}{}", Qual::plain(&sheets[*s]).text(), a.text())).collect()
+}
+
+/// a defined name by its name, wherever it is held (a reload re-homes global names)
+fn read_name(book: &umya_spreadsheet::Spreadsheet, _holder: usize, i: usize) -> Option<String> {
+    let nm = format!("nm_{}", i);
+    for k in 0..book.get_sheet_count() {
+        if let Some(d) = book.get_sheet(&k).unwrap().get_defined_names().iter().find(|d| d.get_name() == nm) {
+            return Some(d.get_address());
+        }
+    }
+    book.get_defined_names().iter().find(|d| d.get_name() == nm).map(|d| d.get_address())
+}
+
+fn read_cell(book: &umya_spreadsheet::Spreadsheet, host: usize, i: usize) -> Option<String> {
+    let tag = format!("tag-{}", i);
+    let ws = book.get_sheet(&host).unwrap();
+    let found: Vec<String> = ws.get_cell_collection().into_iter().filter(|c| c.get_value() == tag.as_str()).map(|c| c.get_formula().to_string()).collect();
+    if found.len() == 1 {
+        Some(found[0].clone())
+    } else {
+        None
+    }
+}
+
+fn read_series(book: &mut umya_spreadsheet::Spreadsheet, holder: usize) -> Option<Vec<String>> {
+    let ws = book.get_sheet_mut(&holder).unwrap();
+    let charts = ws.get_chart_collection_mut();
+    if charts.len() == 1 {
+        Some(charts[0].get_plot_area_mut().get_formula_mut().into_iter().map(|f| f.get_address_str()).collect())
+    } else {
+        None
+    }
 }
 
 pub fn run_workbook(r: &Resolved, texts: &[String]) -> Result<Observed, PanicInfo> {
@@ -571,8 +526,17 @@ pub fn run_workbook(r: &Resolved, texts: &[String]) -> Result<Observed, PanicInf
         }
         for (i, (holder, parts)) in r.names.iter().enumerate() {
             let addr = address_text(&r.sheets, parts).join(",");
-            let ws = book.get_sheet_mut(holder).unwrap();
-            ws.add_defined_name(format!("nm_{}", i), addr).unwrap();
+            if *holder == WORKBOOK {
+                // the public API names a DefinedName only through a worksheet: build it there,
+                // then hand it to the workbook
+                let ws = book.get_sheet_mut(&0).unwrap();
+                ws.add_defined_name(format!("nm_{}", i), addr).unwrap();
+                let dn = ws.get_defined_names_mut().pop().unwrap();
+                book.add_defined_names(dn);
+            } else {
+                let ws = book.get_sheet_mut(holder).unwrap();
+                ws.add_defined_name(format!("nm_{}", i), addr).unwrap();
+            }
         }
         for (holder, parts) in r.series.iter() {
             let addrs = address_text(&r.sheets, parts);
@@ -585,19 +549,46 @@ pub fn run_workbook(r: &Resolved, texts: &[String]) -> Result<Observed, PanicInf
             book.get_sheet_mut(holder).unwrap().add_chart(chart);
         }
         let mut obs = Observed::default();
-        for (i, (holder, _)) in r.names.iter().enumerate() {
-            let nm = format!("nm_{}", i);
-            let ws = book.get_sheet(holder).unwrap();
-            obs.names0.push(ws.get_defined_names().iter().find(|d| d.get_name() == nm).map(|d| d.get_address()));
-        }
-        for (holder, _) in r.series.iter() {
-            let ws = book.get_sheet_mut(holder).unwrap();
-            let charts = ws.get_chart_collection_mut();
-            if charts.len() == 1 {
-                let v: Vec<String> = charts[0].get_plot_area_mut().get_formula_mut().into_iter().map(|f| f.get_address_str()).collect();
-                obs.series0.push(Some(v));
-            } else {
-                obs.series0.push(None);
+        if let Some(materialise) = &r.lazy {
+            // save, reload eagerly for the baseline, reload lazily for the run; a failure of
+            // this set-up (save / load defects) is not this property's subject
+            let saved = guard(|| {
+                let mut bytes: Vec<u8> = Vec::new();
+                umya_spreadsheet::writer::xlsx::write_writer(&book, &mut bytes).map_err(|e| format!("save: {:?}", e))?;
+                let eager = umya_spreadsheet::reader::xlsx::read_reader(std::io::Cursor::new(bytes.clone()), true).map_err(|e| format!("reload: {:?}", e))?;
+                let lazy = umya_spreadsheet::reader::xlsx::read_reader(std::io::Cursor::new(bytes), false).map_err(|e| format!("lazy reload: {:?}", e))?;
+                Ok::<_, String>((eager, lazy))
+            });
+            let (mut eager, lazy_book) = match saved {
+                Ok(Ok(x)) => x,
+                Ok(Err(e)) => {
+                    obs.setup_failed = Some(e);
+                    return obs;
+                }
+                Err(p) => {
+                    obs.setup_failed = Some(format!("panic {}", p.short()));
+                    return obs;
+                }
+            };
+            for (i, (host, _, _, _)) in r.cells.iter().enumerate() {
+                obs.cells0.push(read_cell(&eager, *host, i));
+            }
+            for (i, (holder, _)) in r.names.iter().enumerate() {
+                obs.names0.push(read_name(&eager, *holder, i));
+            }
+            for (holder, _) in r.series.iter() {
+                obs.series0.push(read_series(&mut eager, *holder));
+            }
+            book = lazy_book;
+            for k in materialise {
+                book.read_sheet(*k);
+            }
+        } else {
+            for (i, (holder, _)) in r.names.iter().enumerate() {
+                obs.names0.push(read_name(&book, *holder, i));
+            }
+            for (holder, _) in r.series.iter() {
+                obs.series0.push(read_series(&mut book, *holder));
             }
         }
         for (s, e) in &r.edits {
@@ -609,26 +600,17 @@ pub fn run_workbook(r: &Resolved, texts: &[String]) -> Result<Observed, PanicInf
                 Edit::RemoveCols { at, n } => book.remove_column_by_index(name, at, n),
             }
         }
+        if r.lazy.is_some() {
+            book.read_sheet_collection();
+        }
         for (i, (host, _at, _e, _b)) in r.cells.iter().enumerate() {
-            let tag = format!("tag-{}", i);
-            let ws = book.get_sheet(host).unwrap();
-            let found: Vec<String> = ws.get_cell_collection().into_iter().filter(|c| c.get_value() == tag.as_str()).map(|c| c.get_formula().to_string()).collect();
-            obs.cells.push(if found.len() == 1 { Some(found[0].clone()) } else { None });
+            obs.cells.push(read_cell(&book, *host, i));
         }
         for (i, (holder, _)) in r.names.iter().enumerate() {
-            let nm = format!("nm_{}", i);
-            let ws = book.get_sheet(holder).unwrap();
-            obs.names.push(ws.get_defined_names().iter().find(|d| d.get_name() == nm).map(|d| d.get_address()));
+            obs.names.push(read_name(&book, *holder, i));
         }
         for (holder, _) in r.series.iter() {
-            let ws = book.get_sheet_mut(holder).unwrap();
-            let charts = ws.get_chart_collection_mut();
-            if charts.len() == 1 {
-                let v: Vec<String> = charts[0].get_plot_area_mut().get_formula_mut().into_iter().map(|f| f.get_address_str()).collect();
-                obs.series.push(Some(v));
-            } else {
-                obs.series.push(None);
-            }
+            obs.series.push(read_series(&mut book, *holder));
         }
         obs
     })
@@ -659,7 +641,7 @@ fn attempt_cell(r: &Resolved, host: usize, at: (u32, u32), e: &Expr, blanks: &[u
     let own = r.edits_on(host);
     let all: Vec<Edit> = r.edits.iter().map(|(_, e)| *e).collect();
     let at = (0..200u32).map(|k| (at.0 + k * 7, at.1 + k * 11)).find(|c| survives(*c, &own) && survives(*c, &all)).unwrap_or(at);
-    let single = Resolved { sheets: r.sheets.clone(), cells: vec![(host, at, e.clone(), blanks.to_vec())], names: vec![], series: vec![], edits: r.edits.clone(), excluded: vec![] };
+    let single = Resolved { sheets: r.sheets.clone(), cells: vec![(host, at, e.clone(), blanks.to_vec())], names: vec![], series: vec![], edits: r.edits.clone(), excluded: vec![], lazy: None };
     let lib = run_workbook(&single, &[text.clone()]).map(|o| match &o.cells[0] {
         Some(s) => Ok(s.clone()),
         None => Err("formula cell deleted by the history".to_string()),
@@ -669,14 +651,14 @@ fn attempt_cell(r: &Resolved, host: usize, at: (u32, u32), e: &Expr, blanks: &[u
 
 /// single reference for the classifier; `strip`: the equivalent unqualified reference, i.e.
 /// hosted on the sheet the qualifier designates (not possible for external references)
-fn ref_runner(r: &Resolved, host: usize, at: (u32, u32), rn: &RefNode, strip: bool, a: &Area) -> Outcome {
+fn ref_runner(r: &Resolved, host: usize, at: (u32, u32), rn: &RefNode, strip: bool, a: &Area, lower: bool) -> Outcome {
     if strip {
         match target_of(rn, host, &r.sheets) {
-            Some(t) if rn.qual.is_some() => attempt_cell(r, t, at, &Expr::Ref(RefNode { qual: None, area: a.clone() }), &[], 0, 0),
+            Some(t) if rn.qual.is_some() => attempt_cell(r, t, at, &Expr::Ref(RefNode { qual: None, area: a.clone(), lower }), &[], 0, 0),
             _ => Outcome::Pass,
         }
     } else {
-        attempt_cell(r, host, at, &Expr::Ref(RefNode { qual: rn.qual.clone(), area: a.clone() }), &[], 0, 0)
+        attempt_cell(r, host, at, &Expr::Ref(RefNode { qual: rn.qual.clone(), area: a.clone(), lower }), &[], 0, 0)
     }
 }
 
@@ -700,7 +682,13 @@ pub fn parse_address_list(s: &str, split: bool) -> Result<Vec<(String, Option<Ar
     }
     let mut out = Vec::new();
     for p in parts {
-        let (q, rest) = split_qualifier(&p);
+        if p == "#REF!" {
+            out.push((String::new(), None));
+            continue;
+        }
+        // an unquoted qualifier may contain apostrophes (Address::get_address quotes only
+        // names with blanks): split at the last `!` then
+        let (q, rest) = if p.starts_with('\'') { split_qualifier(&p) } else { p.rfind('!').map(|i| (&p[..=i], &p[i + 1..])).unwrap_or(("", p.as_str())) };
         let sheet = if q.is_empty() {
             String::new()
         } else {
@@ -809,33 +797,19 @@ fn punct_multi(sheets: &[String], parts: &[(usize, Area)]) -> bool {
     false
 }
 
-/// Root-cause class of a failing address part (None = no known structural cause: general).
-/// `holder`: Some for defined names.  Order matters: an opaque or foreign-held address is
-/// never adjusted at all, so R5 / deletion handling cannot be what went wrong for it.
+/// Structural class of a failing address part (None = general).  `holder`: Some for defined
+/// names.
 fn address_cause(r: &Resolved, kind: &str, holder: Option<usize>, parts: &[(usize, Area)], i: usize) -> Option<String> {
     let (t, a) = &parts[i.min(parts.len() - 1)];
-    if holder.is_some() {
-        if parts.iter().any(|(_, a)| matches!(a, Area::Rows { .. } | Area::Cols { .. })) {
-            return Some(format!("{}-whole-rows-cols", kind));
-        }
+    if let Some(h) = holder {
         if punct_multi(&r.sheets, parts) {
             return Some(format!("{}-multi-on-punct-sheet", kind));
         }
-        if Some(*t) != holder {
-            return Some(format!("{}-foreign-holder", kind));
-        }
-    } else if r.sheets[*t].contains('\'') {
-        return Some(format!("{}@apos-sheet", kind));
-    }
-    let own = edit_area_history(a, &r.edits_on(*t));
-    if holder.is_some() {
-        // R5: every sheet's defined names see every edit
-        let all: Vec<Edit> = r.edits.iter().map(|(_, e)| *e).collect();
-        if edit_area_history(a, &all) != own {
-            return Some(format!("{}:other-sheet-edit-applied", kind));
+        if h == WORKBOOK {
+            return Some(format!("{}-workbook-level", kind));
         }
     }
-    if own.contains(&None) {
+    if edit_area_history(a, &r.edits_on(*t)).contains(&None) {
         return Some(format!("{}:deleted-corner", kind));
     }
     None
@@ -867,7 +841,7 @@ fn panic_part(r: &Resolved, kind: &str, holder: Option<usize>, parts: &[(usize, 
 
 /// a defined name alone (classifier)
 fn attempt_name(r: &Resolved, holder: usize, parts: &[(usize, Area)]) -> Option<(String, String)> {
-    let single = Resolved { sheets: r.sheets.clone(), cells: vec![], names: vec![(holder, parts.to_vec())], series: vec![], edits: r.edits.clone(), excluded: vec![] };
+    let single = Resolved { sheets: r.sheets.clone(), cells: vec![], names: vec![(holder, parts.to_vec())], series: vec![], edits: r.edits.clone(), excluded: vec![], lazy: None };
     match run_workbook(&single, &[]) {
         Err(p) => {
             let i = panic_part(r, "defined-name", Some(holder), parts);
@@ -898,7 +872,7 @@ fn judge_name(r: &Resolved, holder: usize, parts: &[(usize, Area)], observed: &O
 }
 
 fn attempt_series(r: &Resolved, holder: usize, parts: &[(usize, Area)]) -> Option<(String, String)> {
-    let single = Resolved { sheets: r.sheets.clone(), cells: vec![], names: vec![], series: vec![(holder, parts.to_vec())], edits: r.edits.clone(), excluded: vec![] };
+    let single = Resolved { sheets: r.sheets.clone(), cells: vec![], names: vec![], series: vec![(holder, parts.to_vec())], edits: r.edits.clone(), excluded: vec![], lazy: None };
     match run_workbook(&single, &[]) {
         Err(p) => {
             let i = panic_part(r, "chart-series", None, parts);
@@ -1025,8 +999,13 @@ fn label(c: &Case, r: &Resolved, obs: &mut Obs) {
             } else {
                 classes.insert("name:unchanged".into());
             }
-            if t != holder {
+            if *holder == WORKBOOK {
+                classes.insert("name:workbook-level".into());
+            } else if t != holder {
                 classes.insert("name:foreign-holder".into());
+            }
+            if matches!(a, Area::Rows { .. } | Area::Cols { .. }) {
+                classes.insert("name:whole-rows-cols".into());
             }
         }
     }
@@ -1054,6 +1033,23 @@ fn check(c: &Case, obs: &mut Obs) -> Verdict {
         obs.excluded(x.clone());
     }
     label(c, &r, obs);
+    let v = check_inner(&r, obs);
+    if r.lazy.is_some() {
+        obs.class(format!("lazy:materialised-{}-of-{}", r.lazy.as_ref().unwrap().len(), r.sheets.len()));
+        if let Verdict::Fail { key, detail } = &v {
+            // the same workbook and history without the save / lazy reload
+            let eager = Resolved { lazy: None, ..r.clone() };
+            let mut o2 = Obs::default();
+            if matches!(check_inner(&eager, &mut o2), Verdict::Pass) {
+                return Verdict::fail(format!("lazy-load/{}", key.rsplit('/').next().unwrap_or("altered")), detail.clone());
+            }
+        }
+    }
+    v
+}
+
+fn check_inner(r: &Resolved, obs: &mut Obs) -> Verdict {
+    let r = r.clone();
     // render + harness self-check
     let mut texts = Vec::new();
     let mut inputs = Vec::new();
@@ -1071,7 +1067,22 @@ fn check(c: &Case, obs: &mut Obs) -> Verdict {
     // judge every object of the combined run
     let mut first_fail: Option<(String, String)> = None;
     if let Ok(o) = &whole {
+        if let Some(why) = &o.setup_failed {
+            obs.class(format!("lazy:setup-failed:{}", why.split(':').next().unwrap_or("")));
+            return Verdict::Pass;
+        }
+    }
+    if let Ok(o) = &whole {
         for (i, (host, at, e, b)) in r.cells.iter().enumerate() {
+            if r.lazy.is_some() {
+                // the reloaded file must show the generated formula, else the save/load
+                // path (C01/C03) changed it and this cell is not judged here
+                let same = o.cells0[i].as_ref().and_then(|t| lex(t).ok()).map_or(false, |l| first_mismatch(&inputs[i], &l).is_none());
+                if !same {
+                    obs.class("lazy:formula-changed-by-reload");
+                    continue;
+                }
+            }
             let Some(out) = &o.cells[i] else {
                 obs.class("formula-cell-deleted");
                 continue;
@@ -1079,7 +1090,7 @@ fn check(c: &Case, obs: &mut Obs) -> Verdict {
             let expected = cell_expected(&r, *host, e);
             if let Outcome::Fail { mode, tok_class, detail } = judge_output(&texts[i], &inputs[i], &expected, Ok(Ok(out.clone()))) {
                 let run = |x: &Expr, bl: &[u8], l: u8, t: u8| attempt_cell(&r, *host, *at, x, bl, l, t);
-                let run_ref = |rn: &RefNode, strip: bool, a: &Area| ref_runner(&r, *host, *at, rn, strip, a);
+                let run_ref = |rn: &RefNode, strip: bool, a: &Area, lower: bool| ref_runner(&r, *host, *at, rn, strip, a, lower);
                 // classify on the isolated cell when it fails alone as well, else by token class
                 let alone = attempt_cell(&r, *host, *at, e, b, 0, 0);
                 let (key, detail) = match alone {
@@ -1122,7 +1133,7 @@ fn check(c: &Case, obs: &mut Obs) -> Verdict {
         for (host, at, e, b) in r.cells.iter() {
             if let Outcome::Fail { mode, tok_class, detail } = attempt_cell(&r, *host, *at, e, b, 0, 0) {
                 let run = |x: &Expr, bl: &[u8], l: u8, t: u8| attempt_cell(&r, *host, *at, x, bl, l, t);
-                let run_ref = |rn: &RefNode, strip: bool, a: &Area| ref_runner(&r, *host, *at, rn, strip, a);
+                let run_ref = |rn: &RefNode, strip: bool, a: &Area, lower: bool| ref_runner(&r, *host, *at, rn, strip, a, lower);
                 let (key, detail) = classify(e, b, 0, 0, (mode, tok_class, detail), &run, &run_ref);
                 return Verdict::fail(key, detail);
             }
@@ -1151,6 +1162,7 @@ fn subs() -> Vec<Box<dyn DynSub>> {
         Box::new(Sub { name: "cells", strategy: cells_cases, cases: (2200, 30_000), check, max_shrink_iters: 2500 }),
         Box::new(Sub { name: "defined-names", strategy: names_cases, cases: (1000, 12_000), check, max_shrink_iters: 2500 }),
         Box::new(Sub { name: "chart-series", strategy: series_cases, cases: (600, 8_000), check, max_shrink_iters: 2500 }),
+        Box::new(Sub { name: "lazy", strategy: lazy_cases, cases: (500, 8_000), check, max_shrink_iters: 1500 }),
         Box::new(Sub { name: "dirty", strategy: dirty_cases, cases: (400, 5_000), check, max_shrink_iters: 2500 }),
     ]
 }
